@@ -300,11 +300,19 @@ def derives_from(path, v, pred, depth=0):
     return False
 
 
+def norm_bool(ev):
+    """(expr, truth) of a boolean cond with leading negations folded into the truth value."""
+    t = cond_truth(ev)
+    e = ev['expr']
+    while t is not None and e[0] == 'unop' and e[1] == 'Not':
+        e, t = e[2], not t
+    return e, t
+
+
 def cmp_norm(ev):
     """What an ordering comparison established on this path, orientation-free:
     ('ge', a, b) meaning a >= b, or ('gt', a, b) meaning a > b.  None if the cond is not an ordering comparison."""
-    t = cond_truth(ev)
-    e = ev['expr']
+    e, t = norm_bool(ev)
     if t is None or e[0] != 'binop' or e[1] not in ('Ge', 'Gt', 'Le', 'Lt'):
         return None
     op, a, b = e[1], e[2], e[3]
@@ -337,3 +345,132 @@ def at_most(ev, is_term):
     if is_term(b) and a[0] == 'const' and a[2] is not None:
         return b, a[2] - (1 if rel == 'gt' else 0)
     return None
+
+
+def zero_test(ev, is_term):
+    """What a cond established about an unsigned term, for any operator and orientation:
+    'zero' (term == 0), 'pos' (term > 0) or None (not such a test / nothing established)."""
+    e, t = norm_bool(ev)
+    if t is None or e[0] != 'binop':
+        return None
+    if e[1] in ('Eq', 'Ne'):
+        a, b = e[2], e[3]
+        if is_term(b) and is_const(a, 0):
+            a, b = b, a
+        if not (is_term(a) and is_const(b, 0)):
+            return None
+        return 'zero' if (e[1] == 'Eq') == t else 'pos'
+    lo = at_least(ev, is_term)
+    if lo and lo[1] >= 1:
+        return 'pos'
+    hi = at_most(ev, is_term)
+    if hi and hi[1] == 0:
+        return 'zero'
+    return None
+
+
+def num_active_term(path):
+    """Predicate: the value is the number of active members of self.members - the result of Members::num_active /
+    Foca::num_members on it, or the field itself."""
+    calls = {c['id']: c for c in path.calls()}
+
+    def pred(v):
+        v = peel(v)
+        if v[0] == 'call' and v[1] in calls:
+            return calls[v[1]]['res'] in ('member::Members::num_active', 'Foca::num_members')
+        return v[0] == 'load' and field_path(v[1])[1][-1:] == ['num_active']
+    return pred
+
+
+def canon_cond(path, ev, body=None):
+    """Canonical text of what a cond established: `<expr> == <0|1>` with Ne/Not folded into the truth value, Lt/Le
+    turned into Gt/Ge and the operands of Eq ordered textually - so `0 == x`, `x == 0` and `!(x != 0)` coincide."""
+    t = ev['taken']
+    e = ev['expr']
+    while e[0] == 'unop' and e[1] == 'Not' and t in (0, 1):
+        e, t = e[2], 1 - t
+    if e[0] == 'binop':
+        op, a, b = e[1], describe(path, e[2], body), describe(path, e[3], body)
+        if op == 'Ne' and t in (0, 1):
+            op, t = 'Eq', 1 - t
+        if op == 'Lt':
+            op, a, b = 'Gt', b, a
+        elif op == 'Le':
+            op, a, b = 'Ge', b, a
+        if op == 'Eq' and b < a:
+            a, b = b, a
+        return '%s(%s, %s) == %s' % (op, a, b, t)
+    return '%s == %s' % (describe(path, e, body), t)
+
+
+def some_payload(path, v):
+    """If v is the payload of an Option that is known to be Some where v is used - `Some(x)` pattern or `opt?` -
+    return the Option-valued expression, else None."""
+    if v[0] == 'fieldv' and v[2] == '0':
+        if v[3] == 'Some':
+            return v[1]
+        if v[3] == 'Continue' and v[1][0] == 'call':
+            for c in path.calls():
+                if c['id'] == v[1][1] and c['res'] == '<core::option::Option as core::ops::Try>::branch':
+                    return c['args'][0]
+    return None
+
+
+def option_test(facts, path, ev):
+    """If the cond tests an Option value E for presence - `match E`/`if let Some(..) = E` (a switch on E's
+    discriminant) or `E?` (a switch on `Try::branch(E)`) - return (E, 'Some'|'None'), else None."""
+    e = ev['expr']
+    if e[0] != 'discr':
+        return None
+    vs = cond_variants(facts, ev)
+    if not vs or len(vs) != 1:
+        return None
+    v = next(iter(vs))
+    if v in ('Some', 'None'):
+        return e[1], v
+    if v in ('Continue', 'Break') and e[1][0] == 'call':
+        for c in path.calls():
+            if c['id'] == e[1][1] and c['res'] == '<core::option::Option as core::ops::Try>::branch':
+                return c['args'][0], ('Some' if v == 'Continue' else 'None')
+    return None
+
+
+def option_known(facts, path, upto, E):
+    """'Some' / 'None' if a cond before event index `upto` established it for the Option value E."""
+    out = None
+    for c in conds_before(path, upto):
+        t = option_test(facts, path, c)
+        if t and t[0] == E:
+            out = t[1]
+    return out
+
+
+def variant_test(facts, ev, is_subject):
+    """What a cond established about the variant of an enum-valued subject, whether written `x == E::V`,
+    `x != E::V`, `matches!(x, E::V | ..)` or `match x {..}`: the set of variant names x may have afterwards,
+    or None if the cond does not test a subject satisfying is_subject."""
+    e0 = ev['expr']
+    if e0[0] == 'discr':
+        return cond_variants(facts, ev) if is_subject(e0[1]) else None
+    e, t = norm_bool(ev)
+    es = eq_sides(e)
+    if not es or t is None:
+        return None
+    is_eq, a, b = es
+    if variant_name(a) is not None and is_subject(b):
+        a, b = b, a
+    if not (is_subject(a) and variant_name(b) is not None):
+        return None
+    adt = b[1] if b[0] == 'variant' else b[2]
+    name = variant_name(b)
+    if t == is_eq:
+        return {name}
+    try:
+        return set(facts.variant_names(adt)) - {name}
+    except Exception:
+        return None
+
+
+def is_param(v, n):
+    """The n-th parameter itself or a reborrow of the reference it holds (`x` / `&*x`)."""
+    return v == ('param', 0, n) or (v[0] == 'ref' and v[1] == ('deref', ('param', 0, n)))
